@@ -50,7 +50,7 @@ func init() {
 		},
 		Run:            c07Run,
 		Replay:         c07Replay,
-		QuickBudget:    50 * time.Second,
+		QuickBudget:    240 * time.Second,
 		ThoroughBudget: 9 * time.Minute,
 	})
 }
